@@ -84,6 +84,16 @@ def cases(tier, seed):
     for (m, n, cnd) in ((40, 30, 1000.0), (48, 40, 300.0)):
         for tol in (1e-3, 1e-6):
             out.append({"key": f"cgne-large/{m}x{n}/c={cnd:g}/tol={tol:g}", "ep": "cgne", "m": m, "n": n, "cond": cnd, "tol": tol, "pr": 0, "large": True, "S1": True})
+    # badly row-scaled / column-scaled well-conditioned inputs (one row or column multiplied by 2^-10 or 2^10): the answer must still be
+    # the Moore-Penrose inverse, not just some left inverse
+    for (m, n) in ((5, 3), (6, 2), (4, 4), (7, 4)):
+        for axis in ("row", "col"):
+            for idx in range(m if axis == "row" else n):
+                for e in (-10, 10):
+                    out.append({"key": f"cgne-scaled/{m}x{n}/{axis}{idx}/2^{e}", "ep": "cgne", "m": m, "n": n, "cond": 2.0, "tol": 1e-8, "pr": 0, "rs": [axis, idx, e], "S1": True})
+                    if idx == 0:
+                        out.append({"key": f"col-scaled/{m}x{n}/{axis}{idx}/2^{e}", "ep": "col", "m": m, "n": n, "cond": 2.0, "tol": 1e-8, "bs": 2, "cs": "qr", "rs": [axis, idx, e]})
+                        out.append({"key": f"hyb-scaled/{m}x{n}/{axis}{idx}/2^{e}", "ep": "hyb", "m": m, "n": n, "cond": 2.0, "tol": 1e-8, "p": 2, "T": 3, "r": 2, "cs": "qr", "rs": [axis, idx, e]})
     # the flag must be sound on every call of a reused object, too (a converging call first, then a call that
     # exhausts a tight budget, then a converging one again)
     for cls in ("cgne", "col", "hyb"):
@@ -177,6 +187,13 @@ def run_case(case, seed):
     ep = case["ep"]
     fill = G.Fill(seed, stream=hash_tag(f"{m}x{n}/{case['cond']}"))
     A, vals = make_A(m, n, case["cond"], fill)
+    if case.get("rs"):
+        axis, idx, e = case["rs"]
+        if axis == "row":
+            A[idx] = np.ldexp(A[idx], e)
+        else:
+            A[:, idx] = np.ldexp(A[:, idx], e)
+        vals = [float(v) for v in O.svals(A)]
     Aq = G.to_quat(A)
     Aplus = O.pinv(A)
     nAp2 = 1.0 / min(vals)
